@@ -121,24 +121,9 @@ impl Sub for ModelRoundTrip {
                     // the corpus refers to seed rows by their rendered feature string: rebuild it
                     spec.resync_corpus();
                 }
-                // one more user row that mixes the cells of the two seed rows used first in the corpus: its merged
-                // weight tends to exceed every seed word's, so that loading it moves the 16-bit scale of the costs
-                if let Some(u) = spec.user.as_mut() {
-                    let gold: Vec<&crate::gen::train::SeedRow> = spec
-                        .corpus
-                        .iter()
-                        .flatten()
-                        .filter_map(|(sf, feat)| spec.lex.iter().find(|r| r.surface == *sf && r.feature() == *feat))
-                        .collect();
-                    if let (Some(a), Some(b)) = (gold.first(), gold.iter().find(|r| r.cells != gold[0].cells)) {
-                        let n = a.cells.len().max(b.cells.len());
-                        let cells: Vec<String> = (0..n)
-                            .map(|i| if i % 2 == 0 { a.cells.get(i).or(b.cells.get(i)) } else { b.cells.get(i).or(a.cells.get(i)) }.cloned().unwrap_or_else(|| "*".into()))
-                            .collect();
-                        // first, so that the first AddUser of the history loads it
-                        u.insert(0, crate::gen::train::UserRow { surface: "zq".into(), left: 0, right: 0, cost: 0, cells });
-                    }
-                }
+                // one more user row (first, so that the first AddUser of the history loads it) whose merged weight tends to
+                // exceed every seed word's: loading it moves the 16-bit scale of the costs
+                spec.add_weight_raising_user_row(false);
                 let nuser = spec.user.as_ref().map_or(0, |u| u.len());
                 let mut before: Vec<MOp> = b.iter().map(|k| if *k == 0 { MOp::Gen } else { MOp::GenBigram }).collect();
                 // mostly at least one dictionary generation before the model is written (whatever the in-memory model
